@@ -121,6 +121,14 @@ class EngineE:
                 step["nonzeros"] = None
             if op == "sp_from_function":
                 step["fn"] = g.choice(["arange_plus", "ones", "random_sample"])
+        elif op == "from_aggregator" and g.random() < 0.012:
+            # a very long input (tens of thousands of rows over a small tensor), regenerated from its recipe
+            shape = self._shape(g, nmax=3, smax=4)
+            step["gen_rows"] = {"n": g.randint(66000, 90000), "seed": g.randrange(10**6)}
+            step["subs"] = None
+            step["vals"] = None
+            step["shape"] = shape
+            step["reducer"] = g.choice(["sum", "default", "min", "max", "mean", "mean", "np.max", "first", "last", "callable_first", "callable_last"])
         elif op == "from_aggregator":
             shape = self._shape(g, smax=3)
             huge = g.random() < 0.2
@@ -469,6 +477,12 @@ class EngineE:
     def _do_from_aggregator(self, step, V, res, tol):
         ttb = self.ttb
         rows, vals = step["subs"], step["vals"]
+        if step.get("gen_rows"):
+            rs = np.random.RandomState(step["gen_rows"]["seed"])
+            n = step["gen_rows"]["n"]
+            rows = np.stack([rs.randint(0, s, size=n) for s in step["shape"]], axis=1).tolist()
+            vals = rs.randint(-3, 4, size=n).astype(float).tolist()
+            res.bump("probe:very_long_aggregator_input")
         if not rows or len(rows) != len(vals):
             raise _Skip()
         nd = len(rows[0])
